@@ -17,7 +17,7 @@ import (
 
 func portBoundaries(c *harness.Check) []int {
 	if c.Thorough() {
-		return []int{1, 2, 3, 62, 63, 64, 65, 127, 128, 129, 32767, 32768, 65471, 65472, 65473, 65534, 65535}
+		return []int{1, 2, 3, 63, 64, 65, 127, 128, 129, 32768, 65472, 65534, 65535}
 	}
 	return []int{1, 2, 63, 64, 65, 127, 128, 65534, 65535}
 }
@@ -382,7 +382,7 @@ func portCases(c *harness.Check) (cases []portCase, desc map[string]any) {
 		"single_token_sets": n1, "ordered_pairs": n2, "unordered_triples_with_repetition": n3, "port_list_cases": n4,
 		"many_range_families": names, "many_range_cases": n5,
 		"probes_per_representation": 65535,
-		"representations": []string{"bitset(PortSet.Contains)", "rangelist(PortSet.RangeSet.Contains)", "route(toPortRanges)", "route(fromPortRanges,inverted)", "thorough: route(fromPortRanges), route(toPortRanges,inverted)", "PortSet.Count/First/RangeCount"},
+		"representations":           []string{"bitset(PortSet.Contains)", "rangelist(PortSet.RangeSet.Contains)", "route(toPortRanges)", "route(fromPortRanges,inverted)", "thorough: route(fromPortRanges), route(toPortRanges,inverted)", "PortSet.Count/First/RangeCount"},
 	}
 	return
 }
